@@ -85,7 +85,7 @@ fn float_ctor(acc: &mut Acc, idx: u64, len: usize, w: usize, h: usize) {
     let want_ok = len == w * h;
     let bits = |d: &[[f32; 3]]| d.iter().flat_map(|p| p.map(|c| c.to_bits())).collect::<Vec<_>>();
     let want_bits = bits(&data);
-    let mut report = |acc: &mut Acc, name: &str, r: Result<Result<(Vec<u32>, usize, usize), CreationError>, String>| {
+    let report = |acc: &mut Acc, name: &str, r: Result<Result<(Vec<u32>, usize, usize), CreationError>, String>| {
         let case = json!({"kind":"c12float","len":len,"w":w,"h":h});
         acc.states += 1;
         acc.transitions += 1;
